@@ -19,6 +19,8 @@ of the model, provided the program does not call `succeed`/`fail` on request eve
 
 variable {σ : Type}
 
+namespace Conserve
+
 /-- the kind of a non-request event -/
 def nonReqKind : Kind → Bool
   | .put _ => false
@@ -685,3 +687,5 @@ theorem reach (body : σ → Resume → Burst ℚ σ) (fuel : Nat) (s0 s : KStat
   | step _ hok hs ih => exact K.trans ih (K.step body fuel _ _ (K.wf hW ih) hok hs)
 
 end CRel
+
+end Conserve
